@@ -280,7 +280,10 @@ def r14_7(chk):
     chk.rule("R14.7", "apply_to never raises because one record fails: the call of the writer's main inside the loop over completed results sits in a try whose handler catches Exception and turns the failure into a not-completed record (the writer is called as self.main(...), so _call's own try/except, R14.4, does not cover it)")
     m = chk.repo.module(CP)
     fn = m.func("_apply_to")
-    loops = [f for f in walk_no_nested(fn) if isinstance(f, ast.For) and any(isinstance(c, ast.Call) and norm(c.func) == "self.as_completed" for c in ast.walk(f.iter))]
+    from ..defuse import assignments as _assignments
+
+    streams = {t.id for tg, v, _ in _assignments(fn) if any(isinstance(c, ast.Call) and norm(c.func) == "self.as_completed" for c in ast.walk(v)) for t in tg if isinstance(t, ast.Name)}
+    loops = [f for f in walk_no_nested(fn) if isinstance(f, ast.For) and (any(isinstance(c, ast.Call) and norm(c.func) == "self.as_completed" for c in ast.walk(f.iter)) or any(isinstance(x, ast.Name) and x.id in streams for x in ast.walk(f.iter)))]
     if not loops:
         raise AnalysisError("_apply_to: loop over self.as_completed(...) not found")
     calls = [c for st in loops[0].body for c in ast.walk(st) if isinstance(c, ast.Call) and norm(c.func) in ("self.main", "self")]
